@@ -30,7 +30,7 @@ def run(pid, tier, replay=None):
             # gain scheduling and scratch buffer belong to C13 as well
             ck.violation("trace:%s:opr%s" % (fam, ev.get("opr")), {"what": "TLC rejected the fuzzy controller run: scheduled gains not base + weighted mean of the firing rules' consequents, or buffer overrun", "event": ev})
             n += 1
-        elif fam not in ("npid", "npidx"):
+        elif fam not in ("npid", "npidx", "npidl"):
             raise Broken("rejected event of an unknown family %r" % fam)
     ck.part("recorded", **summ)
     ck.part("rejected", count=n)
